@@ -1,4 +1,5 @@
 import asyncio
+import concurrent.futures
 import logging
 import pickle
 import struct
@@ -923,11 +924,21 @@ def eval_sys_fn_create_ipc_server(klong, x):
     port = int(parts[0] if len(parts) == 1 else parts[1])
     system = klong['.system']
     shutdown_event = system['closeEvent']
-    if len(parts) == 1 and port == 0:
-        shutdown_event.unsubscribe(_ipc_tcp_server.shutdown_server)
-        return _ipc_tcp_server.shutdown_server()
     ioloop = system['ioloop']
     klongloop = system['klongloop']
+    if len(parts) == 1 and port == 0:
+        shutdown_event.unsubscribe(_ipc_tcp_server.shutdown_server)
+        # the server and its connections belong to the io loop: closing them from another
+        # thread does not wake the loop, so the connections would linger until unrelated traffic
+        try:
+            in_ioloop = asyncio.get_running_loop() is ioloop
+        except RuntimeError:
+            in_ioloop = False
+        if in_ioloop or not ioloop.is_running():
+            return _ipc_tcp_server.shutdown_server()
+        done = concurrent.futures.Future()
+        ioloop.call_soon_threadsafe(lambda: done.set_result(_ipc_tcp_server.shutdown_server()))
+        return done.result()
     # subscribe to the shutdown event and run shutdown_server in the klong loop
     async def async_shutdown_in_klongloop():
         _ipc_tcp_server.shutdown_server()
